@@ -14,7 +14,7 @@ import props.wiring as wr
 
 MANIFEST = {
     "level": "proof",
-    "text": "No-panic sweep under proved invariants. Construction: the real newMBC is executed on an arbitrary byte slice (symbolic length up to 16 MiB, symbolic header and contents; prepareROM/prepareRAM loops cut at invariants); every outcome is either a panic (allowed: loading fails) or returns a non-nil controller whose dynamic type satisfies its representation invariant (validNone/valid1/2/3/5: bank registers in range, bank counts a power of two between 2 and 512, RAM bank count 1/4/8/16). Guest programs: under those invariants and the components' invariants (worldOK) every index, slice, nil-dereference, division and explicit panic site reachable from Mapper.Read/Write (every address class x every controller), Mapper.EndMachineCycle (DMA through the real decoder, RTC), DumpRAM, oam.Corrupt and the four corruption patterns, ppu.EndMachineCycle, the PPU render helpers, audio.EndMachineCycle and all register handlers, timer.EndMachineCycle, controller.ButtonAction, and every defined opcode of the CPU (501 opcode lemmas, incl. the dispatch itself) is proved unreachable; the 11 undefined opcodes are proved to reach exactly the deliberate os.Exit and nothing else does. The invariants are the ones proved inductive in C08-C10, C12, C13, C16, C17, C19. Power-on: the first machine cycle of any program is proved to perform no OAM-bug trigger, which covers the window before the PPU's first OAM access establishes plaOK. The base case is discharged on the real gameboy.New (ROM loading and the cgo outputs abstracted): every invariant of worldOK except plaOK holds in the power-on state for every Config; apuOK and the APU clock invariant are proved preserved by every exported method of *Audio.",
+    "text": "No-panic sweep under proved invariants. Construction: the real newMBC is executed on an arbitrary byte slice (symbolic length up to 16 MiB, symbolic header and contents; prepareROM/prepareRAM loops cut at invariants); every outcome is either a panic (allowed: loading fails) or returns a non-nil controller whose dynamic type satisfies its representation invariant (validNone/valid1/2/3/5: bank registers in range, bank counts a power of two between 2 and 512, RAM bank count 1/4/8/16). Guest programs: under those invariants and the components' invariants (worldOK) every index, slice, nil-dereference, division and explicit panic site reachable from Mapper.Read/Write (every address class x every controller), Mapper.EndMachineCycle (DMA through the real decoder, RTC), DumpRAM, oam.Corrupt and the four corruption patterns, ppu.EndMachineCycle, the PPU render helpers, audio.EndMachineCycle and all register handlers, timer.EndMachineCycle, controller.ButtonAction, and every defined opcode of the CPU (501 opcode lemmas, incl. the dispatch itself) is proved unreachable; the 11 undefined opcodes are proved to reach exactly the deliberate os.Exit and nothing else does. The invariants are the ones proved inductive in C08-C10, C12, C13, C16, C17, C19. Power-on: the first machine cycle of any program is proved to perform no OAM-bug trigger, which covers the window before the PPU's first OAM access establishes plaOK. The base case is discharged on the real gameboy.New (ROM loading and the cgo outputs abstracted): every invariant of worldOK except plaOK holds in the power-on state for every Config; apuOK and the APU clock invariant are proved preserved by every exported method of *Audio. The renderer itself (renderPixel with findBackgroundPixel / findWindowPixel / readTilePixel, used through a contract inside ppu.EndMachineCycle) is swept through the pixel lemma's no-panic obligation for every scroll, window, LCDC and object configuration.",
     "note": "Trusted: go/ssa, engine semantics, z3. fmt.Sprintf/Println and image.SetRGBA are assumed not to panic. A failing io.Writer makes serial.WriteSB panic by design (environment). display/speakers (cgo) are outside.",
     "technique": "panic-site obligations generated for every index/slice/deref/div/panic instruction of the real go/ssa, discharged under contracts' invariants; constructor-establishes-invariant lemma; z3",
     "design_ref": "DESIGN.md section 4 C11",
